@@ -61,6 +61,16 @@ CHECKS["C14"] = dict(
     ref="DESIGN.md section 4, C14",
 )
 
+CHECKS["C09"] = dict(
+    category="exploration",
+    technique="complete enumeration of a finite function (operator x type x type) against a rule table; end-to-end over all spellable triples",
+    text="The typing function is total over a finite domain: all 51597 internal triples and all 2548 spellable triples are enumerated, "
+         "so there is no bound at the typing interface. End to end the compile decision, the IR types and the overload picked by "
+         "probe(a OP b) (statically in the call instruction and dynamically on the VM) are compared with a table transcribed from the statement.",
+    note="Trusted: the rule table in nslmc/props/c09.py (oracle) with the cells the statement leaves open marked UNSPECIFIED.",
+    ref="DESIGN.md section 4, C09",
+)
+
 PENDING = {}
 
 
